@@ -2052,7 +2052,7 @@ class zip_latest(Stream):
             while self.lossless_buffer:
                 self.last[0], self.metadata[0] = self.lossless_buffer.popleft()
                 md = [m for ml in self.metadata for m in ml]
-                L.append(self._emit(tuple(self.last), md))
+                L.extend(self._emit(tuple(self.last), md))
                 self._release_refs(self.metadata[0])
             return L
 
